@@ -2,6 +2,7 @@ package comet
 
 import (
 	"compress/gzip"
+	"errors"
 	"fmt"
 	"io"
 	"os"
@@ -184,16 +185,33 @@ func (s *PersistentHybridIndex) writeIndexToSegment(
 	}
 
 	// Close gzip writers
+	// (the compressed data reaches the files only now: a failed Close is a
+	// failed write and must not be acknowledged)
+	var closeErr error
 	if vectorGz != nil {
-		vectorGz.Close()
+		closeErr = errors.Join(closeErr, vectorGz.Close())
 	}
 	if textGz != nil {
-		textGz.Close()
+		closeErr = errors.Join(closeErr, textGz.Close())
 	}
 	if metadataGz != nil {
-		metadataGz.Close()
+		closeErr = errors.Join(closeErr, metadataGz.Close())
 	}
-	hybridGz.Close()
+	closeErr = errors.Join(closeErr, hybridGz.Close())
+	if closeErr != nil {
+		// Clean up partial files on error
+		os.Remove(hybridPath)
+		if vectorFile != nil {
+			os.Remove(vectorPath)
+		}
+		if textFile != nil {
+			os.Remove(textPath)
+		}
+		if metadataFile != nil {
+			os.Remove(metadataPath)
+		}
+		return fmt.Errorf("failed to write index: %w", closeErr)
+	}
 
 	return nil
 }
